@@ -239,6 +239,49 @@ def run(res, tier):
                how='restore at line %s' % lro[0].get('l'),
                message='LockReadWriteAux: a path from the release of the caller\'s read locks (line %s) reaches a return without LockReadOnly(): when the upgrade attempt fails (TryLockReadWrite, '
                        'deadline) the caller has silently lost its read locks; its later UnlockReadOnly() fails and a writer can enter while the caller still believes it is reading' % u.get('l'))
+    # ---- DEADLINE: "timed and try acquisitions return by their deadline with the lock state unchanged on failure"
+    res.rule('DEADLINE', 'a ReaderWriterMutex method that takes a deadline passes that deadline to every call that can block (WaitCondition::Wait and the other deadline-taking methods of the class), '
+                         'and gives up locks the caller already holds only after testing that the deadline is not zero (a try operation fails without touching the state)', floor=5)
+    # deadline parameters: the 64-bit time-stamp parameter of the class's Lock* methods (LockReadOnly/LockReadWrite and their *Aux workers)
+    D = {}          # function q -> parameter index
+    for f in funcs:
+        if re.search(r'ReaderWriterMutex::Lock\w+$', f.q):
+            for (pi, prm) in enumerate(f.params):
+                if f.ptype(prm).replace('const ', '').strip() in ('unsigned long', 'unsigned long long', 'uint64', 'muscle::uint64'):
+                    D[f.q] = pi
+                    break
+    if len(D) < 3:
+        raise AnalysisBroken('DEADLINE: only %d deadline-taking methods found' % len(D))
+    n_dl = 0
+    for f in sorted(funcs, key=lambda f: (f.file, f.line)):
+        if f.q not in D:
+            continue
+        dp = f.params[D[f.q]]
+        for c in f.walk():
+            if not c.is_call():
+                continue
+            q = c.get('q') or ''
+            k = 0 if q.endswith('WaitCondition::Wait') else D.get(q)
+            if k is not None:
+                n_dl += 1
+                arg = c.args()[k] if k < len(c.args()) else None
+                ok = arg is not None and any(x['k'] == 'DeclRefExpr' and x.get('d') == dp['d'] for x in arg.walk())
+                res.ob('DEADLINE', f.where(c), '%s passes its deadline `%s` to %s' % (f.q.split('::')[-1], dp.get('n'), q.split('::')[-1]), ok, function=f.q, how='argument `%s`' % (arg.text(40) if arg is not None else '?'),
+                       key='DEADLINE|%s|%s' % (f.q, q.split('::')[-1]),
+                       message='%s(%s) calls %s(%s), which can block without regard to the caller\'s deadline: a timed acquisition that has already failed (or a try) waits for as long as other '
+                               'threads hold or queue for the lock' % (f.q, dp.get('n'), q.split('::')[-1], arg.text(40) if arg is not None else ''))
+            if re.search(r'ReaderWriterMutex::Unlock(ReadOnly|ReadWrite)(Aux)?$', q) and re.search(r'::Lock\w+$', f.q):
+                n_dl += 1
+                okz = False
+                for (cn, t) in G.atoms_at(f, c):
+                    z = A.zero_test(cn, t)
+                    if z is not None and not z[1] and z[0].get('d') == dp['d']:
+                        okz = True
+                res.ob('DEADLINE', f.where(c), '%s gives up a held lock (%s) only when `%s` != 0' % (f.q.split('::')[-1], q.split('::')[-1], dp.get('n')), okz, function=f.q,
+                       key='DEADLINE|%s|release-needs-nonzero-deadline:%s' % (f.q, q.split('::')[-1]),
+                       message='%s can call %s() when its deadline is 0: a try-lock that cannot succeed releases locks the caller holds (and must then wait to get them back) instead of failing at once '
+                               'with the state unchanged' % (f.q, q.split('::')[-1]))
+    res.extra['deadline_methods'] = sorted(D)
     res.explanation = ('Static decision of the reader/writer mutex\'s structural invariants: %d accesses to the state tables all under _stateMutex (must-hold lock sets, helper preconditions inferred); the '
                        'admission tests contain the exclusion conjuncts; each of the %d registrations of a new executing thread is dominated by the true edge of the matching test under the same guard object; '
                        'waits happen with the lock released, inside loops that re-test admission; every departure from the executing table or the waiter tables can reach a notify routine in the same critical '
